@@ -102,7 +102,16 @@ def complete_cases(draw):
     # the server's nameplate list as it was at 0-3 earlier refreshes (nameplates come and go, the list may
     # become empty); `nps` is the list at the last refresh
     earlier = draw(st.lists(st.lists(st.integers(1, 999).map(str), min_size=0, max_size=4, unique=True), max_size=3))
-    return dict(part="complete", nps=nps, done=done, partial=partial, junk=junk, np_idx=np_prefix_of, np_cut=np_cut,
+    # the user asked for completions before with a different (mistyped, then corrected) earlier word but the same
+    # partial last word: 0-2 such earlier TABs on the same input session
+    pre_edit = []
+    if done:
+        for _ in range(draw(st.integers(0, 2))):
+            alt = list(done)
+            k = draw(st.integers(0, len(alt) - 1))
+            alt[k] = draw(st.one_of(st.sampled_from(odd if k % 2 == 0 else even), st.just(alt[k][:-1] or "x")))
+            pre_edit.append(alt)
+    return dict(part="complete", pre_edit=pre_edit, nps=nps, done=done, partial=partial, junk=junk, np_idx=np_prefix_of, np_cut=np_cut,
                 pick=pick, via=draw(st.sampled_from(["helper", "helper", "inputter"])), earlier=earlier,
                 # (readline front end) after the nameplate is committed the user edits it: extends it or replaces it
                 np_change=draw(st.sampled_from([None, None, "extend", "other"])))
@@ -393,6 +402,13 @@ def run_complete(c, res):
                 return [x[len(np_) + 1:] for x in r if x.startswith(np_ + "-")] + \
                        [x for x in r if not x.startswith(np_ + "-")]
             prefix_for = lambda text: text                            # noqa: E731
+        for alt in c.get("pre_edit") or []:
+            alt_text = "-".join(alt + [c["partial"]])
+            for cp in sorted(get(alt_text)):
+                if not cp.startswith(alt_text):
+                    res.violate("complete", "word completion %r does not extend typed %r" % (cp, alt_text),
+                                input_class="completion-does-not-extend")
+            res.notes["earlier_tab_with_other_words"] += 1
         text = typed_words
         rounds = 0
         final = None
